@@ -159,3 +159,15 @@ package sql
 // the program (one obligation per call site; a function that forwards its own
 // parameter as the format is a formatting function too and its callers are checked).
 //@ sweep constfmt [C10] github.com/metrico/qryn/reader/utils/sql_select github.com/metrico/qryn/reader/logql/logql_transpiler_v2/clickhouse_planner github.com/metrico/qryn/reader/logql/logql_transpiler_v2/shared github.com/metrico/qryn/reader/logql/logql_transpiler_v2 github.com/metrico/qryn/reader/traceql/transpiler/clickhouse_transpiler github.com/metrico/qryn/reader/traceql/transpiler github.com/metrico/qryn/reader/prof/transpiler github.com/metrico/qryn/reader/prof github.com/metrico/qryn/reader/promql/transpiler github.com/metrico/qryn/reader/tempo github.com/metrico/qryn/reader/service
+
+// A numeric literal - the threshold of `rate(...) > 0.0000004`, of a numeric label
+// filter, of a TraceQL comparison - is rendered as the shortest decimal that parses
+// back to exactly the float of the query (%f keeps six decimals: 0.0000004 would be
+// compared as 0.000000).
+//@ func (*FloatVal).String [C07,C08,C11]
+//@   modifies nothing
+//@   ensures literal-is-the-number-of-the-query: result1 == nil && result0 == shortestDec(f.val)
+//@   replay:
+//@     go: s, _ := (&FloatVal{val: 0.0000004}).String(&Ctx{})
+//@     go: if s != "0.0000004" { confirm("the literal 0.0000004 is rendered as " + s) }
+//@   end
